@@ -20,11 +20,21 @@ func hbTimeout(h time.Duration) time.Duration {
 
 // stallIn sums the virtual stalls injected at yield sites of an instance in a window.
 func (d *Driver) stallIn(inst int, a, b time.Duration) time.Duration {
+	// every stall that overlaps the window; the window is extended by the stalls found (a goroutine
+	// that was held up for 1.2s at one site and then parked at the next one is late by both), until
+	// nothing more is found
 	var s time.Duration
-	for _, st := range d.h.Stalls {
-		if st.Inst == inst && st.T <= b && st.T+st.D >= a { // every stall that overlaps the window
-			s += st.D
+	for i := 0; i < 64; i++ {
+		var n time.Duration
+		for _, st := range d.h.Stalls {
+			if st.Inst == inst && st.T <= b+s && st.T+st.D >= a {
+				n += st.D
+			}
 		}
+		if n == s {
+			break
+		}
+		s = n
 	}
 	return s
 }
